@@ -363,6 +363,10 @@ def run(facts, tier):
     from c18 import rule_no_deferred_results
     rules.append(rule_no_deferred_results(facts, "E17.5").finish())
 
+    # ---------------- U17.7 standard input and file arguments treat UTF-8 alike (shared with C07 T7.5)
+    from c07 import rule_utf8_sync
+    rules.append(rule_utf8_sync(facts, "U17.7").finish())
+
     # ---------------- I17.6 one input stream
     i6 = Rule("I17.6", "one input stream: the function that builds the run-time data wraps the caller's input iterator in exactly one shared iterator; the main loop iterates "
               "that same object and the data handed to `input`/`inputs` holds that same object (every input is consumed once, by whoever asks first); "
